@@ -111,6 +111,9 @@ pub fn check_delivery(w: &World, plan: &Plan, prop: &str, is_async: bool) -> Opt
     // a receiver that gives up early closes the pipe under the sender: report the root cause
     for (i, r) in w.recvs.iter().enumerate() {
         match &r.outcome {
+            RecvOutcome::Closed if !r.stream_exhausted => {
+                return v(prop, "2-sequence", "premature-closed", "recv", format!("recv #{} reported Closed although the sender had not finished / bytes were still in the pipe", i))
+            }
             RecvOutcome::Parse(e) => return v(prop, "2-sequence", "parse-on-valid-stream", "recv", format!("recv #{} reported Parse({}) on a fault-free stream of sent messages", i, e)),
             RecvOutcome::ReadErr(e) => return v(prop, "2-sequence", "read-err-on-valid-stream", "recv", format!("recv #{} reported Read({}) although the pipe never failed", i, e)),
             _ => {}
